@@ -329,20 +329,43 @@ theorem pre_stable {w w' : KS} (ha : Alloc w) (hR : AddsDirs w w') :
         have := hR.newDirs _ _ _ hc hc'
         exact ⟨this.1, pre_of_fresh ha hR rest c this.2⟩
 
-/-! ## The diagnostic reads succeed on this kernel -/
+/-! ## The diagnostic reads make no `mkdirat`, whatever they are answered
+
+Building an error value always completes (a failing probe of a thread-self spelling just
+moves on to the next one), so the answers of the kernel do not matter here. -/
 
 def NoMk (t : Hist) : Prop := ∀ x ∈ t, ∀ d n m, x.1 ≠ Call.mkdirat d n m
 
-def FromKernel (t : Hist) : Prop := ∀ x ∈ t, ∃ w1, x.2 = KS.answer w1 x.1
+theorem NoMk.nil : NoMk [] := fun _ hx => by cases hx
 
-theorem FromKernel.append_left {a b : Hist} (h : FromKernel (a ++ b)) : FromKernel a :=
-  fun x hx => h x (List.mem_append_left _ hx)
-theorem FromKernel.append_right {a b : Hist} (h : FromKernel (a ++ b)) : FromKernel b :=
-  fun x hx => h x (List.mem_append_right _ hx)
+theorem NoMk.append {a b : Hist} (ha : NoMk a) (hb : NoMk b) : NoMk (a ++ b) := fun x hx =>
+  (List.mem_append.mp hx).elim (ha x) (hb x)
 
-theorem freeze_true (fuel : Nat) (fd : Fd) {t : Hist} {b : Bool}
-    (hr : RunsT (Sys.freeze (fuel + 1) fd) t b) (hk : FromKernel t) : b = true ∧ NoMk t := by
-  rw [Sys.freeze.eq_2] at hr
+theorem freeze_probe_noMk : ∀ (cands : List Bytes) {t : Hist} {b : Bytes},
+    RunsT (Sys.freeze.probe cands) t b → NoMk t := by
+  intro cands
+  induction cands with
+  | nil =>
+    intro t b hr
+    rw [Sys.freeze.probe.eq_1] at hr
+    obtain ⟨rfl, _⟩ := RunsT.ret_inv hr
+    exact NoMk.nil
+  | cons cand rest ih =>
+    intro t b hr
+    rw [Sys.freeze.probe.eq_2] at hr
+    obtain ⟨r, t', rfl, hr'⟩ := RunsT.call_inv hr
+    have ht' : NoMk t' := by
+      split at hr'
+      · exact ih hr'
+      · obtain ⟨rfl, _⟩ := RunsT.ret_inv hr'
+        exact NoMk.nil
+    intro x hx d n m
+    rcases List.mem_cons.mp hx with rfl | hx
+    · simp
+    · exact ht' x hx d n m
+
+theorem freeze_noMk (fd : Fd) {t : Hist} {u : Unit} (hr : RunsT (Sys.freeze fd) t u) : NoMk t := by
+  unfold Sys.freeze at hr
   obtain ⟨t1, t2, tid, rfl, h1, h2⟩ := RunsT.bind_inv hr
   -- gettid
   unfold Sys.gettid at h1
@@ -350,38 +373,29 @@ theorem freeze_true (fuel : Nat) (fd : Fd) {t : Hist} {b : Bool}
   have ht1' : t1' = [] := by
     split at h1' <;> exact (RunsT.ret_inv h1').1
   subst ht1'
-  obtain ⟨t3, t4, pr, rfl, h3, h4⟩ := RunsT.bind_inv h2
-  -- the first probe is answered by the kernel: not an error
-  unfold Sys.threadSelfCandidates at h3
-  rw [Sys.freeze.probe.eq_2] at h3
-  obtain ⟨r3, t3', rfl, h3'⟩ := RunsT.call_inv h3
-  have hr3 : r3 = .nums [S_IFLNK ||| 0o777, 0, 3, 5] := by
-    obtain ⟨w1, hw1⟩ := hk (_, r3) (List.mem_append_right _ (List.mem_append_left _ List.mem_cons_self))
-    exact hw1
-  subst hr3
-  simp only [] at h3'
-  obtain ⟨rfl, rfl⟩ := RunsT.ret_inv h3'
-  simp only [] at h4
+  obtain ⟨t3, t4, base, rfl, h3, h4⟩ := RunsT.bind_inv h2
+  have h3' := freeze_probe_noMk _ h3
+  have h1n : NoMk [(Call.gettid, r1)] := by
+    intro x hx d n m
+    simp at hx
+    subst hx
+    simp
+  refine h1n.append (h3'.append ?_)
   split at h4
-  · obtain ⟨rfl, rfl⟩ := RunsT.ret_inv h4
-    refine ⟨rfl, ?_⟩
-    intro x hx d n m
-    simp at hx
-    rcases hx with rfl | rfl <;> simp
+  · obtain ⟨rfl, _⟩ := RunsT.ret_inv h4
+    exact NoMk.nil
   · obtain ⟨r5, t5, rfl, h5⟩ := RunsT.call_inv h4
-    obtain ⟨rfl, rfl⟩ := RunsT.ret_inv h5
-    refine ⟨rfl, ?_⟩
+    obtain ⟨rfl, _⟩ := RunsT.ret_inv h5
     intro x hx d n m
     simp at hx
-    rcases hx with rfl | rfl | rfl <;> simp
+    subst hx
+    simp
 
 theorem failWith_kernel {α : Type} (d : Fd) (e : Nat) {t : Hist} {x : Except Err α}
-    (hr : RunsT (Sys.failWith [d] e : M α) t x) (hk : FromKernel t) : x = .error (.os e) ∧ NoMk t := by
+    (hr : RunsT (Sys.failWith [d] e : M α) t x) : x = .error (.os e) ∧ NoMk t := by
   unfold Sys.failWith Sys.failWith.go at hr
-  obtain ⟨t1, t2, ok, rfl, h1, h2⟩ := RunsT.bind_inv hr
-  obtain ⟨hok, hn⟩ := freeze_true 2 d h1 hk.append_left
-  subst hok
-  simp only [↓reduceIte] at h2
+  obtain ⟨t1, t2, u, rfl, h1, h2⟩ := RunsT.bind_inv hr
+  have hn := freeze_noMk d h1
   unfold Sys.failWith.go at h2
   obtain ⟨rfl, rfl⟩ := RunsT.ret_inv h2
   exact ⟨rfl, by simpa using hn⟩
@@ -439,10 +453,7 @@ theorem mkdirTolerant_step {cur : Fd} {part : Bytes} {perm : Nat} {rest : List B
       simp only [hch] at hresp
       subst hresp
       simp only [] at hdisp
-      have hkern : FromKernel td := by
-        intro x hx
-        exact Valid.answers hrest x (List.mem_append_left _ hx)
-      obtain ⟨hz', hnomk⟩ := failWith_kernel cur EEXIST hdisp hkern
+      obtain ⟨hz', hnomk⟩ := failWith_kernel cur EEXIST hdisp
       subst hz'
       -- try' turns it into a value, the tolerant wrapper accepts EEXIST
       rcases hzc with ⟨a, ha', _⟩ | ⟨e, he, hfe⟩
